@@ -398,9 +398,11 @@ PROBES["sp2_terminates"] = probe_sp2_terminates
 
 def run(ctx: Ctx):
     from ..translate import gen
-    gen.regenerate(ctx, ["Constants", "LoopCensus", "Guards"])
+    gen.regenerate(ctx, ["Constants", "LoopCensus", "Guards", "BasisCount"])
     leanproj.check_theorems(ctx, MODULE, THEOREMS)
-    from .registry import THEOREMS_C03C
+    from .registry import THEOREMS_BASISTIE, THEOREMS_C03C
+    # translator tie: every real-versus-padding orbital bound in the source (eigen-solver wrappers, SP2 padding protection, thermal occupations, guess, guard)
+    leanproj.check_theorems(ctx, "PyseqmVerif.Properties.BasisTie", THEOREMS_BASISTIE)
     leanproj.check_theorems(ctx, "PyseqmVerif.Properties.C03c", THEOREMS_C03C)
     drv = leanproj.Driver()
     try:
